@@ -1,4 +1,4 @@
-import Lemmas.Offline.Render
+import Lemmas.Offline.Parse
 import Lemmas.Offline.Split
 import Spec.Offline
 /-! Assembly lemmas for `C12.same_effect_partial`. -/
@@ -73,14 +73,15 @@ theorem Reads_nil : Reads q [] [] := ⟨by simp, rfl⟩
 include hq in
 theorem Reads_stmt (s : Stmt) (h : stmtOk q s = true) (ho : isOther s = false) :
     Reads q [stmtItem q s] [s] := by
-  simp only [stmtOk, readsBack, Bool.and_eq_true, beq_iff_eq] at h
+  simp only [stmtOk, Bool.and_eq_true] at h
+  have hrb := parse_render q hq s h.1
   have hc := closed_stmt q hq s ho
   refine ⟨?_, ?_⟩
   · intro i hi
     simp only [List.mem_singleton] at hi
     subst hi
     simp [stmtItem, tabs4_id _ h.2, itemOk, hc]
-  · simp [stmtItem, tabs4_id _ h.2, stmtsOf, h.1]
+  · simp [stmtItem, tabs4_id _ h.2, stmtsOf, hrb]
 
 include hq in
 theorem Reads_rows (t : Str) (cols : List Str) (rows : List (List Val))
